@@ -110,7 +110,9 @@ let sqt_model_ref : (ostring list -> ostring list) ref = ref (fun _ -> [])
 let parse_mop (op : ostring) : mop =
   match split '.' op with
   | ["s"; topic; payload] -> MSend (n_of_int (ios topic), zi (ios payload))
-  | ["n"; h; topic; name; latest] -> MNewReceiver (n_of_int (ios h), n_of_int (ios topic), n_of_int (ios name), latest = "1")
+  | ["n"; h; topic; name; latest] | ["n"; h; topic; name; latest; _] ->
+    (* the optional 6th field (a poll-frequency option given before / after) does not exist for the model *)
+    MNewReceiver (n_of_int (ios h), n_of_int (ios topic), n_of_int (ios name), latest = "1")
   | ["r"; h] -> MRecv (n_of_int (ios h))
   | ["a"; h] -> MAck (n_of_int (ios h))
   | _ -> failwith ("mst op " ^ op)
